@@ -144,6 +144,17 @@ def _dc(x):
         return repr(x)
 
 
+def _raw_items(arg, exp_new):
+    """the items MultiDict.update() receives: list values not yet expanded (falls back to the expanded pairs)"""
+    try:
+        src = arg.items() if isinstance(arg, Mapping) else arg
+        if isinstance(arg, (str, bytes)):
+            return [list(p) for p in exp_new]
+        return [[str.__str__(k), (list(v) if isinstance(v, (list, tuple)) else render(v))] for k, v in src]
+    except Exception:  # noqa: BLE001
+        return [list(p) for p in exp_new]
+
+
 def snapshot_arg(arg):
     if isinstance(arg, (list, tuple)):
         return ("seq", type(arg).__name__, [_dc(x) for x in arg])
@@ -256,7 +267,7 @@ def check_op(ctx, backend, old, op, form, new):
                     want_vals = [v for kk, v in exp_new if kk == k]
                     if not ctx.check(vals == want_vals, "update_query: values of a replaced key are not the argument's values",
                                      observed={"key": k, "values": vals, "got": got, "old": old_items, "new": exp_new,
-                                               "raw_new": [[str.__str__(kk), vv if isinstance(vv, (list, tuple)) else render(vv)] for kk, vv in (arg.items() if isinstance(arg, Mapping) else arg)]},
+                                               "raw_new": _raw_items(arg, exp_new)},
                                      expected=want_vals, entry=op):
                         break
     if op != "build":
